@@ -114,7 +114,7 @@ loop:
 		}
 	}
 	if o.stalled || o.watchdog {
-		o.dump = syncerGoroutines()
+		o.dump = r.syncerGoroutines()
 		o.actorDead = !r.barrier(3 * time.Second)
 		r.endSession(s)
 		return s, o
@@ -122,7 +122,7 @@ loop:
 	// the actor must still be responsive; then look for a second notification
 	if !r.barrier(5 * time.Second) {
 		o.actorDead = true
-		o.dump = syncerGoroutines()
+		o.dump = r.syncerGoroutines()
 	}
 	time.Sleep(20 * time.Millisecond)
 	for len(s.notifyC) > 0 {
@@ -156,7 +156,7 @@ func (r *rig) describeSession(s *session, o *outcome, what string) string {
 	sc := r.sc
 	fmt.Fprintf(&b, "%s\nscenario #%d class=%s cfg{hashReq=%d blockReq=%d tasks=%d pending=%d fullScanOnly=%v} chains{fork=%d localBest=%d remoteBest=%d sideFork=%d} target=%d peers=%d followUp=%v stale=%v\n",
 		what, sc.ID, sc.Class, sc.HashReq, sc.BlockReq, sc.Tasks, sc.Pending, sc.FullScan, sc.Fork, s.local0.best(), s.remote.best(), sc.SideFork, s.target, sc.NPeers, s.plan.followUp, s.plan.stale)
-	fmt.Fprintf(&b, "outcome: notified=%d err=%s stalled=%v actorUnresponsive=%v seq=%d highestCommon=%d", o.notified, errStr(o.err), o.stalled, o.actorDead, s.seq, highestCommon(s.local0, s.remote))
+	fmt.Fprintf(&b, "outcome: notified=%d err=%s stalled=%v actorUnresponsive=%v seq=%d highestCommon=%d maxReplyLag=%v", o.notified, errStr(o.err), o.stalled, o.actorDead, s.seq, highestCommon(s.local0, s.remote), s.maxLag)
 	if s.accepted != nil {
 		fmt.Fprintf(&b, " ancestor=%d", s.accepted.No)
 	}
@@ -243,6 +243,13 @@ func (r *rig) evalSession(res *scResult, s *session, o *outcome, mustSucceed boo
 			kind = "sync-start-not-accepted"
 		}
 		res.count("stalls", 1)
+		if o.actorDead {
+			// keyed by the call site at which the actor goroutine is blocked, whatever scenario class led there
+			site := blockedSite(o.dump, fmt.Sprintf("%p", r.syn))
+			res.Viols = append(res.Viols, viol{Key: "C17/actor-blocked/" + site, Case: sc, Desc: r.describeSession(s, o,
+				fmt.Sprintf("no final notification and the syncer actor no longer processes its mailbox: it is blocked in %s (nothing emitted, no reply outstanding for %d driver ticks of %v)", site, stallTicks, driverTick))})
+			return
+		}
 		V("no-progress:"+kind, fmt.Sprintf("no final notification; the syncer emitted nothing and no reply was outstanding for %d consecutive driver ticks of %v (fetch timeout %v, hash timeout %v)", stallTicks, driverTick, fetchTimeout, hashTimeout))
 		return
 	}
@@ -329,6 +336,25 @@ func (r *rig) evalSession(res *scResult, s *session, o *outcome, mustSucceed boo
 		res.count("honest session ended with error (retried)", 1)
 		V("honest-session-failed", fmt.Sprintf("all peers answered truthfully and in time, nobody asked to stop, yet the session ended with error %s in each of 3 attempts (max reply lag %v)", errStr(o.err), s.maxLag))
 	}
+}
+
+// blockedSite extracts the syncer function in which a goroutine of the dump sits in a channel send.
+func blockedSite(dump, synPtr string) string {
+	for _, g := range strings.Split(dump, "\n\n") {
+		if !strings.Contains(g, "[chan send") || !strings.Contains(g, "(*Syncer).handleMessage("+synPtr) {
+			continue
+		}
+		for _, l := range strings.Split(g, "\n") {
+			if strings.HasPrefix(l, "github.com/aergoio/aergo/v2/syncer.") {
+				fn := strings.TrimPrefix(l, "github.com/aergoio/aergo/v2/syncer.")
+				if i := strings.LastIndex(fn, "("); i > 0 {
+					fn = fn[:i]
+				}
+				return fn
+			}
+		}
+	}
+	return "unknown"
 }
 
 func trimErr(e error) string {
@@ -684,9 +710,11 @@ func truncate(s string, n int) string {
 // raceSite returns a stable "funcA" label when the report's top frames are in package syncer.
 func raceSite(rep string) string {
 	var fns []string
-	for _, l := range strings.Split(rep, "\n") {
+	lines := strings.Split(rep, "\n")
+	for i, l := range lines {
 		l = strings.TrimSpace(l)
-		if strings.HasPrefix(l, "github.com/aergoio/aergo/v2/syncer.") {
+		if strings.HasPrefix(l, "github.com/aergoio/aergo/v2/syncer.") && i+1 < len(lines) &&
+			strings.Contains(lines[i+1], "/syncer/") && !strings.Contains(lines[i+1], "verif_hooks") {
 			fn := strings.TrimPrefix(l, "github.com/aergoio/aergo/v2/syncer.")
 			if i := strings.Index(fn, "()"); i > 0 {
 				fn = fn[:i]
